@@ -17,12 +17,13 @@ Fixpoint groups_text (bytes : list N) : text :=
 (* rewrite the bracketed literal of a valid URI reference, if it is an IPv6 address *)
 Definition canon_ip6 (s : text) : text :=
   let (pre, r) := span_until [91] s in
-  match r with
-  | 91 :: r' =>
+  match strip_char 91 r with
+  | Some r' =>
     let (lit, post) := span_until [93] r' in
     match lit with
-    | c :: _ => if (c =? 118) || (c =? 86) then s else pre ++ [91] ++ groups_text (ip6_value lit) ++ post
     | [] => s
+    | _ => if head_is 118 lit || head_is 86 lit then s
+           else pre ++ [91] ++ groups_text (ip6_value lit) ++ post
     end
-  | _ => s
+  | None => s
   end.
